@@ -25,8 +25,8 @@ STEP_RULES = [
 XH = 'include/asl/Xml.h'
 # what the two overloads of Xml::operator<< do to the child list and to the child's parent link (counted: g_children / g_parented), from their real bodies
 def append_cuts():
-    link = [(r'(\w+)\._\(\)->parent = _\(\);', 'g_parented++;', None), (r'(\w+)->parent = [^;]*;', 'g_parented++;', None), (r'return \*this;', 'return;', None)]
-    return [Cut('append_xml', XH, r'^\tXml& operator<<\(const Xml& e\)\s*$', rules=[(r'_\(\)->children << e;', 'g_children++;', 1), (r'\bif\s*\(\s*e\s*\)', 'if (vf_e_is_element)', None), (r'\bif\s*\(\s*!e\s*\)', 'if (!vf_e_is_element)', None)] + link),
+    link = [(r'(\w+)\._\(\)->parent = (?:_\(\)|\w+);', 'g_parented++;', None), (r'(\w+)->parent = [^;]*;', 'g_parented++;', None), (r'return \*this;', 'return;', None)]
+    return [Cut('append_xml', XH, r'^\tXml& operator<<\(const Xml& e\)\s*$', rules=[(r'_Xml\* (\w+) = _\(\);', '', None), (r'(?:_\(\)|\w+)->children << e;', 'g_children++;', 1), (r'\bif\s*\(\s*e\s*\)', 'if (vf_e_is_element)', None), (r'\bif\s*\(\s*!e\s*\)', 'if (!vf_e_is_element)', None)] + link),
             Cut('append_string', XM, r'^Xml& Xml::operator<<\(const String& t\)\s*$',
                 rules=[(r'_Xml\* e = _\(\);', '', 1), (r'e->children\.length\(\) > 0 && e->children\.last\(\)\.isText\(\)', 'nondet_bool()', 1),
                        (r'e->children\.last\(\)\.as<XmlText>\(\)\.append\(t\);', ';', 1), (r'e->children << XmlText\(t\);', 'g_children++;   /* a new text node appended to the Array of children */', 1)] + link)]
